@@ -17,15 +17,26 @@ RULE = (
 )
 ASSUMPTIONS = [
     "URIs are non-empty and contain no comma (CLI '<URI>,<PATH>' form); empty key denotes padding",
-    "a ValueError for a padding entry longer than 0xFFFF bytes (only eb=64KiB, residue eb-1) is an allowed rejection",
+    "a ValueError for a padding entry longer than 0xFFFF bytes (only eb=64KiB, residue eb-1) is an allowed rejection; any other refusal of distinct, non-empty, comma-free URIs is a violation",
     "files with zero slots are not judged (the property speaks of files with at least one slot)",
     "own CBOR walker (vf/cborlite.py) is correct",
 ]
 
 
 def payload_bytes(n, fill):
+    """Payload contents: six byte patterns, and contents that resemble the format's own markers - erased flash (0xFF, also the CBOR
+    'break' that ends the map), a 0xFF tail, zeros (what padding entries hold), a leading 0xFF."""
     pat = bytes(((i * 131 + fill * 17 + 1) & 0xFF) for i in range(256))
-    return (pat * (n // 256 + 1))[:n]
+    data = (pat * (n // 256 + 1))[:n]
+    if fill == 6:
+        return b"\xff" * n
+    if fill == 7:
+        return data[: max(n - 3, 0)] + b"\xff" * min(n, 3)
+    if fill == 8:
+        return bytes(n)
+    if fill == 9:
+        return (b"\xff\x00\xff\xbf\xff" + data)[:n]
+    return data
 
 
 def _main():
@@ -118,12 +129,48 @@ def judge(case, acc, ctx):
         shutil.rmtree(d, ignore_errors=True)
 
 
-def _write_payloads(d, slots, prefix=""):
+def _feed_fifo(path, data, timeout=20.0):
+    """Writer side of a named pipe: waits (without blocking for ever) for the tool to open it for reading, then delivers the bytes."""
+    import threading
+    import time
+
+    def run():
+        t0 = time.time()
+        while time.time() - t0 < timeout:
+            try:
+                fd = os.open(path, os.O_WRONLY | os.O_NONBLOCK)
+            except OSError:
+                time.sleep(0.01)
+                continue
+            try:
+                os.set_blocking(fd, True)
+                view = memoryview(data)
+                while len(view):
+                    view = view[os.write(fd, view):]
+            except OSError:
+                pass
+            finally:
+                os.close(fd)
+            return
+
+    th = threading.Thread(target=run, daemon=True)
+    th.start()
+    return th
+
+
+def _write_payloads(d, slots, prefix="", fifo_index=None):
     inputs = []
     pairs = []
     for i, (uri, n, fill) in enumerate(slots):
         p = os.path.join(d, f"{prefix}p{i}.bin")
         data = payload_bytes(n, fill)
+        if fifo_index is not None and i == fifo_index:
+            # the payload arrives through a named pipe (process substitution, a generator feeding the tool): a path like any other
+            os.mkfifo(p)
+            _feed_fifo(p, data)
+            inputs.append(f"{uri},{p}")
+            pairs.append((uri, data))
+            continue
         with open(p, "wb") as fh:
             fh.write(data)
         inputs.append(f"{uri},{p}")
@@ -151,7 +198,7 @@ def _judge(case, acc, main, d):
     out = os.path.join(d, "out.cache")
     expect_reject = None
     if producer == "payloads":
-        inputs, pairs = _write_payloads(d, case["slots"])
+        inputs, pairs = _write_payloads(d, case["slots"], fifo_index=case.get("fifo"))
         kwargs = dict(cache_create_subcommand="from_payloads", eb_size=eb, input=inputs, output_file=out)
     elif producer == "merge":
         pairs = []
@@ -241,8 +288,11 @@ def _judge(case, acc, main, d):
         if too_long and isinstance(raised, ValueError):
             acc.case(classes=classes + ["rejected:padding>0xFFFF"])
             return
-        acc.case(classes=classes + [f"rejected_unexpected:{type(raised).__name__}"])
-        return
+        acc.case(nt_key=nt_key, classes=classes + [f"rejected_unexpected:{type(raised).__name__}"], sample=case if len(str(case)) < 1500 else None, sample_key=f"rejected/{producer}")
+        # distinct non-empty comma-free URIs, padding within 0xFFFF: nothing the format cannot hold - a refusal loses the pairs
+        # (for merge: "preserves every pair of every input")
+        raise Violation(f"{producer}: valid input refused ({type(raised).__name__}: {str(raised)[:160]}); pairs {[(u, len(p_)) for u, p_ in pairs][:6]} eb {eb}",
+                        "a cache file holding the pairs", bucket=f"refused-valid:{producer}")
     if not os.path.exists(out):
         raise Violation("no exception and no output file", "output file")
     with open(out, "rb") as fh:
@@ -301,6 +351,20 @@ def run_shard(ctx, spec):
                 base = slot_len("u", 0, True)
                 n = (eb - pad - base) % eb
                 _one(ctx, acc, "bigeb", {"producer": "payloads", "eb": eb, "slots": [["u", n, 4], ["v", 1, 5]]})
+        # merge inputs whose LAST slot ends exactly on a block boundary (no padding entry follows; always so for eb = 1) and whose payload
+        # ends in 0xFF bytes / is all 0xFF / is empty: the end-of-map marker and the payload bytes are different things
+        for eb in (1, 1, 2, 7, 16, 64):
+            for fill in (6, 7, 9, 3):
+                base = slot_len("u", 0, True)
+                n = (-base) % eb + eb * (2 if eb < 16 else 1)
+                inputs = [{"eb": eb, "slots": [["u", n, fill]]}, {"eb": eb, "slots": [["v", (-slot_len("v", 0, True)) % eb + eb, 6]]}]
+                _one(ctx, acc, "bigeb", {"producer": "merge", "eb": eb, "inputs": inputs})
+                _one(ctx, acc, "bigeb", {"producer": "merge", "eb": 16, "inputs": list(reversed(inputs))})
+        # a payload delivered through a named pipe
+        if hasattr(os, "mkfifo"):
+            for k in (0, 1):
+                _one(ctx, acc, "bigeb", {"producer": "payloads", "eb": 16, "slots": [["cache://app.bin", 1000, 2], ["#b", 7, 1]], "fifo": k})
+                acc.note("payload-through-named-pipe")
     elif spec["kind"] == "seq":
         from hypothesis import strategies as st
 
